@@ -940,13 +940,13 @@ class Container:
         """
         return any(substance.is_liquid() for substance in self.contents)
 
-    @cache
     def get_substances(self):
         """
 
         Returns: A set of substances present in the container.
 
         """
+        # not memoised: the set is handed to the caller, who may modify it
         return set(self.contents.keys())
 
     def _add(self, source: Substance, quantity: str) -> Container:
